@@ -83,7 +83,8 @@ def check(ctx):
     for interp, down, ctf, lazy in itertools.product(([2, 1], [1, 2], [2, 2], [3, 2]), (False, "cutoff"), range(len(CTFS)), (False, True)):
         if q and lazy and ctf not in (0, 2):
             continue
-        cases.append({"kind": "window", "cut": 25.0, "interp": interp, "down": down, "ctf": ctf, "lazy": lazy})
+        for mbr in ("auto", 1):
+            cases.append({"kind": "window", "cut": 25.0, "interp": interp, "down": down, "ctf": ctf, "lazy": lazy, "mbr": mbr})
     ctx.run(cases, "run_case", rule="full: interpolation 1 vs Probe.multislice; window: interpolation > 1 vs periodised probe (all rolls searched); "
             "non-trivial = CTF with aberrations or a potential")
 
@@ -137,8 +138,9 @@ def run_case(c):
         return {"viol": viol, "obs": "ok" if not viol else viol[0]["key"], "nt": bool(CTFS[c["ctf"]]) or c["pot"] != "none", "tr": 2, "err": worst}
     # ---- window probes (vacuum)
     S = abtem.SMatrix(semiangle_cutoff=c["cut"], energy=100e3, gpts=GP, extent=EXT, interpolation=tuple(c["interp"]), downsample=c["down"])
-    pos = [[3.0, 3.0], [0.5, 1.25], [5.9, 2.0], [2.1, 5.3]]
-    got = S.reduce(scan=abtem.CustomScan(pos), ctf=ctf, lazy=c["lazy"])
+    # centre, one-edge, and all four cell corners (the crop window wraps around in both directions there)
+    pos = [[3.0, 3.0], [0.5, 1.25], [5.9, 2.0], [2.1, 5.3], [0.3, 0.4], [5.8, 5.7], [0.2, 5.9], [5.6, 0.1]]
+    got = S.reduce(scan=abtem.CustomScan(pos), ctf=ctf, lazy=c["lazy"], max_batch_reduction=c.get("mbr", "auto"))
     got = got.compute() if c["lazy"] else got
     g = np.asarray(got.array)
     Sa = S.build(lazy=False)
